@@ -154,6 +154,23 @@ Theorem C20_record_matches_run :
 Proof. exact run_record. Qed.
 Print Assumptions C20_record_matches_run.
 
+(* After a completed run the record tracks what is installed: for every package the files require, a record entry is the
+   installed version (equal string, or equal as versions) - entries of packages that something else changed or removed
+   have been dropped.  Hypotheses on the installer: it changes only what it was asked to install, and a pinned
+   requirement ends up installed at that version. *)
+Theorem C20_record_tracks_installed :
+  forall (vvalid : str -> bool) (vle : str -> str -> bool) (inst : str -> option str) (cfg : deviations)
+         (files : list rfile) (allow : bool) (ia : str -> option str) (rec0 : list (str * str)) (todo : plan_t)
+         (r : alist) (u : bool),
+  NoDup (map fst rec0) -> no_marker rec0 ->
+  (forall p, ~ In p (map fst todo) -> ia p = inst p) ->
+  (forall p w, In (p, Some w) todo -> truthy (ia p) = Some w) ->
+  install vvalid vle allow ia rec0 (process_all vvalid vle inst cfg files) = ODone todo r u ->
+  forall p e v, tlookup p (process_all vvalid vle inst cfg files) = Some e -> alookup p r = Some v ->
+  exists iv, truthy (ia p) = Some iv /\ (v = iv \/ (vvalid v = true /\ vvalid iv = true /\ veq vle v iv = true)).
+Proof. exact run_tracks. Qed.
+Print Assumptions C20_record_tracks_installed.
+
 (* ... and always, over repeated runs with arbitrary external installs / upgrades / removals, changing files and
    changing allow_all_imports in between: every entry of the record is the version that pyscript's latest installer
    call for that package installed ([g'] is that ghost table), provided the unpinned marker string is never reported
